@@ -245,9 +245,12 @@ class TlsExtensionServerNameClient(TlsExtensionParsed):
         parser.parse_numeric('server_name_type', 1, TlsServerNameType)
         parser.parse_parsable('server_name', TlsServerName)
 
-        return cls(
-            six.ensure_text(bytes(bytearray(parser['server_name'])), 'idna')
-        ), parser.parsed_length
+        try:
+            host_name = six.ensure_text(bytes(bytearray(parser['server_name'])), 'idna')
+        except UnicodeError as e:
+            six.raise_from(InvalidValue(bytes(bytearray(parser['server_name'])), cls, 'server_name'), e)
+
+        return cls(host_name), parser.parsed_length
 
     def compose(self):
         composer = ComposerBinary()
